@@ -266,8 +266,8 @@ func (p *Prog) VerifyFunction(fn *ssa.Function, fc *FuncContract, split *int, wa
 				e.failed = fmt.Errorf("%s:%d: preserves: %v", fc.File, fc.Line, err)
 				return e
 			}
-			if t.kind != "loc" && t.kind != "elems" {
-				e.failed = fmt.Errorf("%s:%d: preserves: only *p, x.f and elems(s) are supported", fc.File, fc.Line)
+			if t.kind != "loc" && t.kind != "elems" && t.kind != "map" {
+				e.failed = fmt.Errorf("%s:%d: preserves: only *p, x.f, elems(s) and mapc(m) are supported", fc.File, fc.Line)
 				return e
 			}
 			e.preserved = append(e.preserved, t)
